@@ -864,19 +864,23 @@ def oracle_shared(ctx, pool, n_tasks, per_task):
 
 
 def replay_witnesses(ctx):
-    """the Coq _refuted witnesses on the implementation"""
-    from deepdiff import DeepDiff
+    """the Coq _refuted witnesses on the implementation (an exception is a failing input, never a crash of the check)"""
     w = []
-    if DeepDiff([None], ["NONE"], ignore_order=True) != {}:
-        ctx.break_("correspondence", {"name": "C05_verdict_tag_refuted", "detail": "[None] vs ['NONE'] is now reported as different: the model (K1 collision) is stale"})
-    w.append("C05_verdict_tag_refuted([None] vs ['NONE'])")
-    if DeepDiff({1: "a"}, {1.0: "a"}, ignore_order=True) != {}:
-        ctx.break_("correspondence", {"name": "C05_verdict_alias_refuted", "detail": "{1:'a'} vs {1.0:'a'} is now reported as different: the model (keys matched by ==) is stale"})
-    w.append("C05_verdict_alias_refuted({1:'a'} vs {1.0:'a'})")
+
+    def probe(name, t1, t2, stale_if_nonempty, detail, **kw):
+        got = verdict(t1, t2, **kw)
+        w.append(name)
+        if isinstance(got, Exception):
+            ctx.fail({"t1": repr(t1), "t2": repr(t2), "knobs": kw, "impl_empty": repr(got)}, "DeepDiff(ignore_order=True) raised %s on a theorem witness" % type(got).__name__)
+        elif got is not stale_if_nonempty:
+            ctx.break_("correspondence", {"name": name, "detail": detail})
+    probe("C05_verdict_tag_refuted([None] vs ['NONE'])", [None], ["NONE"], True,
+          "[None] vs ['NONE'] is now reported as different: the model (K1 collision) is stale")
+    probe("C05_verdict_alias_refuted({1:'a'} vs {1.0:'a'})", {1: "a"}, {1.0: "a"}, True,
+          "{1:'a'} vs {1.0:'a'} is now reported as different: the model (keys matched by ==) is stale")
     d = {"a": 1, "b": 2}
-    if DeepDiff(d, dict(d), ignore_order=True, threshold_to_diff_deeper=2) == {}:
-        ctx.break_("correspondence", {"name": "C05_threshold_above_one_refuted", "detail": "threshold_to_diff_deeper=2 no longer reports equal dicts as changed"})
-    w.append("C05_threshold_above_one_refuted({'a':1,'b':2} vs itself, threshold 2)")
+    probe("C05_threshold_above_one_refuted({'a':1,'b':2} vs itself, threshold 2)", d, dict(d), False,
+          "threshold_to_diff_deeper=2 no longer reports equal dicts as changed", threshold_to_diff_deeper=2)
     ctx.note("refuted_witnesses_replayed", w)
 
 
